@@ -10,11 +10,12 @@ import (
 )
 
 // Compressed frame layout (CompressedWriteBuffer):
-//   16 bytes CityHash128 (v1.0.2) of everything after it
-//    1 byte  method (0x02 none, 0x82 LZ4, 0x90 ZSTD)
-//    4 bytes compressed size including these 9 header bytes
-//    4 bytes uncompressed size
-//    payload
+//
+//	16 bytes CityHash128 (v1.0.2) of everything after it
+//	 1 byte  method (0x02 none, 0x82 LZ4, 0x90 ZSTD)
+//	 4 bytes compressed size including these 9 header bytes
+//	 4 bytes uncompressed size
+//	 payload
 const (
 	MethodNone = 0x02
 	MethodLZ4  = 0x82
